@@ -1,7 +1,7 @@
 #!/bin/sh
 # every seeded change against its own check (scratch copy; nothing is written under /verif/evidence); one line per seed
 cd "$(dirname "$0")/.."
-for id in $(ls seeded | sort); do
+for id in $(ls seeded | grep "^C" | sort); do
   chk=${id%%-*}
   d=$(tools/apply_seed.sh $id) || { echo "$id: patch does not apply"; continue; }
   out=$(IXAI_REPO=$d ./check $chk 2>&1); rc=$?
